@@ -94,3 +94,16 @@ Theorem C11_batch_exchange_events : forall w A f add rem rel w' n evs,
   evs = flat_map (ev_of w w' add rem) (table_ents w (get_tables w f)).
 Proof. exact batch_exchange_events_exact. Qed.
 Print Assumptions C11_batch_exchange_events.
+
+(** ** Batch removal.  With an all-subscribing listener Batch.RemoveEntities emits, in
+    processing order, exactly one removal event per matching entity: the event of the single
+    removal (full mask and id list removed, old relation, old target, delivered before the
+    entity is gone). *)
+From Arche Require Import Model.Pool Proofs.BatchRemove.
+Theorem C11_batch_remove_events : forall w A f w' n evs,
+  R w A -> cache_ok w -> w_listener w = Some lall ->
+  (forall e, e ∈ table_ents w (get_tables w f) -> (egen e < gen_max)%N) ->
+  op_remove_entities w (FPlain f) = (w', Ok (VNat n), evs) ->
+  evs = flat_map (rm_ev w) (table_ents w (get_tables w f)).
+Proof. exact batch_remove_events_exact. Qed.
+Print Assumptions C11_batch_remove_events.
